@@ -17,8 +17,8 @@ theorem Out.prepend {W : World} {lc : Nat × Nat} {d pos0 pos e : Nat} {L0 L T :
   | sig g s =>
     cases g with
     | err k => obtain ⟨s1, s2, h1, h2, h3⟩ := h; exact ⟨s1, s2, hst.trans h1, h2, h3⟩
-    | brk => obtain ⟨hd, L', h1, h2, h3⟩ := h; exact ⟨hd, L', hst.trans h1, h2, by omega⟩
-    | cont => obtain ⟨hd, L', h1, h2, h3⟩ := h; exact ⟨hd, L', hst.trans h1, h2, by omega⟩
+    | brk => obtain ⟨L', h1, h2, h3⟩ := h; exact ⟨L', hst.trans h1, h2, by omega⟩
+    | cont => obtain ⟨L', h1, h2, h3⟩ := h; exact ⟨L', hst.trans h1, h2, by omega⟩
     | ret v => exact h
   | timeout => trivial
   | stuck w => trivial
@@ -30,9 +30,9 @@ theorem matchPat_bind (m : Nat) (h : Array Sem.Obj) (x : String) (v : Sem.Val) :
 theorem unit_res (il : Bool) : (if il then pushed Sem.Val.unit Ty.unit else ([] : List VM.Val)) = [] := by
   cases il <;> rfl
 
-theorem compS_assign_inv (op : AsgOp) (hop : op ≠ .set) (x : String) (e : Expr) (Γ : TEnv) (next : Nat) (il : Bool)
-    (code : Code) (τ : Ty) (Γ' : TEnv) (n' : Nat) (h : compS Γ next il (.assign x op e) = some (code, τ, Γ', n')) :
-    ∃ s o ce, Γ.find x = some (s, .int) ∧ asgOp op = some o ∧ compE Γ next e = some (ce, .int, n') ∧
+theorem compS_assign_inv (op : AsgOp) (hop : op ≠ .set) (x : String) (e : Expr) (Γ : TEnv) (next d : Nat) (il : Bool)
+    (code : Code) (τ : Ty) (Γ' : TEnv) (n' : Nat) (h : compS Γ next d il (.assign x op e) = some (code, τ, Γ', n')) :
+    ∃ s o ce, Γ.find x = some (s, .int) ∧ asgOp op = some o ∧ compE Γ next (d + 1) e = some (ce, .int, n') ∧
       code = [.load s] ++ ce ++ [.intOp o .top .top .top, .store s] ∧ τ = .unit ∧ Γ' = Γ := by
   cases op <;> first
     | exact absurd rfl hop
@@ -56,11 +56,6 @@ theorem asg_binop (op : AsgOp) (o : IntOp) (h : asgOp op = some o) :
   cases op <;> simp only [asgOp, Option.some.injEq, reduceCtorEq] at h <;> subst h <;>
     exact ⟨_, rfl, fun _ _ _ _ => rfl⟩
 
-theorem depthSafeS_assign_compound (op : AsgOp) (hop : op ≠ .set) (x : String) (e : Expr) (d : Nat) :
-    depthSafeS d (.assign x op e) = depthSafeE (d + 1) e := by
-  cases op <;> first | exact absurd rfl hop | (simp only [depthSafeS])
-
-
 theorem simS_succ {W : World} {Pg : Prog} {n : Nat} (hE : SimE W Pg n) (hS : SimS W Pg n) (hSs : SimSs W Pg n) :
     SimS W Pg (n + 1) := by
   intro s st Γ next il code τ Γ' n' lc d pos L T hc hd hcode henv hwf hlen
@@ -74,8 +69,7 @@ theorem simS_succ {W : World} {Pg : Prog} {n : Nat} (hE : SimE W Pg n) (hS : Sim
       · rename_i ce t n1 hnu heq
         simp only [Option.some.injEq, Prod.mk.injEq] at hc
         obtain ⟨rfl, rfl, rfl, rfl⟩ := hc
-        simp only [depthSafeS] at hd
-        have hm := compE_mono e _ _ _ _ _ heq
+        have hm := compE_mono e _ _ _ _ _ _ heq
         simp only [resolveAt_append, resolveAt] at hcode
         have hce := codeAt_append_left hcode
         have hst := codeAt_head (codeAt_append_right hcode)
@@ -125,8 +119,7 @@ theorem simS_succ {W : World} {Pg : Prog} {n : Nat} (hE : SimE W Pg n) (hS : Sim
           simp only [Option.some.injEq, Prod.mk.injEq] at hc
           obtain ⟨rfl, rfl, rfl, rfl⟩ := hc
           obtain ⟨rfl, hne⟩ := htt
-          simp only [depthSafeS] at hd
-          have hm := compE_mono e _ _ _ _ _ heq
+          have hm := compE_mono e _ _ _ _ _ _ heq
           simp only [resolveAt_append, resolveAt] at hcode
           have hce := codeAt_append_left hcode
           have hst := codeAt_head (codeAt_append_right hcode)
@@ -157,9 +150,8 @@ theorem simS_succ {W : World} {Pg : Prog} {n : Nat} (hE : SimE W Pg n) (hS : Sim
           | stuck w => trivial
         · simp at hc
       · simp at hc
-    · obtain ⟨sl, o, ce, hf, ho, heq, rfl, rfl, rfl⟩ := compS_assign_inv op hop x e Γ next il code τ Γ' n' hc
-      rw [depthSafeS_assign_compound op hop] at hd
-      have hm := compE_mono e _ _ _ _ _ heq
+    · obtain ⟨sl, o, ce, hf, ho, heq, rfl, rfl, rfl⟩ := compS_assign_inv op hop x e Γ next d il code τ Γ' n' hc
+      have hm := compE_mono e _ _ _ _ _ _ heq
       simp only [List.singleton_append, resolveAt, resolveAt_append] at hcode
       have hld := codeAt_head hcode
       have hce := codeAt_append_left (codeAt_tail hcode)
@@ -172,7 +164,8 @@ theorem simS_succ {W : World} {Pg : Prog} {n : Nat} (hE : SimE W Pg n) (hS : Sim
       | int k =>
         have st0 : Steps W.P (W.cfg pos L T st.out) (W.cfg (pos + 1) L (T ++ [.int k]) st.out) :=
           .single (step_load W hld L T st.out hLo)
-        have ih := hE e st Γ' next ce .int n' lc (d + 1) (pos + 1) L (T ++ [.int k]) heq hd hce henv hwf hlen
+        have ih := hE e st Γ' next ce .int n' lc (d + 1) (pos + 1) L (T ++ [.int k]) heq
+          (by simp only [List.length_append, List.length_cons, List.length_nil]; omega) hce henv hwf hlen
         have hend : pos + ([Instr.load ↑sl] ++ ce ++ [Instr.intOp o Reg.top Reg.top Reg.top, Instr.store ↑sl]).length
             = pos + 1 + ce.length + 2 := by simp; omega
         rw [hend]
@@ -218,7 +211,7 @@ theorem simS_succ {W : World} {Pg : Prog} {n : Nat} (hE : SimE W Pg n) (hS : Sim
           rw [evalS_assign_compound Pg n op hop x e st hlk hb1, hr]
           rw [hr] at ih
           simp only [Res.bind]
-          exact Out.sig_after st0 rfl ih (fun _ _ h => h) (by intro h; omega)
+          exact Out.sig_after st0 rfl ih (fun _ _ h => h) (dropPending_snoc T _ d)
         | timeout =>
           obtain ⟨bop, hb1⟩ : ∃ bop, asgBin op = some bop := by
             cases op <;> first | exact absurd rfl hop | exact ⟨_, rfl⟩
@@ -235,7 +228,6 @@ theorem simS_succ {W : World} {Pg : Prog} {n : Nat} (hE : SimE W Pg n) (hS : Sim
     · rename_i ce t n1 heq
       simp only [Option.some.injEq, Prod.mk.injEq] at hc
       obtain ⟨rfl, rfl, rfl, rfl⟩ := hc
-      simp only [depthSafeS] at hd
       simp only [evalS]
       cases il with
       | true =>
@@ -287,19 +279,21 @@ theorem simS_succ {W : World} {Pg : Prog} {n : Nat} (hE : SimE W Pg n) (hS : Sim
   | break_ =>
     simp only [compS, Option.some.injEq, Prod.mk.injEq] at hc
     obtain ⟨rfl, rfl, rfl, rfl⟩ := hc
-    simp only [depthSafeS, beq_iff_eq] at hd
     simp only [evalS]
-    have hj := codeAt_head hcode
-    simp only [mapT, resolveT] at hj
-    exact ⟨hd, L, .single (step_jump W hj L T st.out), henv, rfl⟩
+    simp only [resolveAt_append] at hcode
+    have hpops := codeAt_append_left hcode
+    have hj := codeAt_head (codeAt_append_right hcode)
+    simp only [resolveAt_length, List.length_replicate, mapT, resolveT] at hj
+    exact ⟨L, (steps_pops W lc d pos L T st.out hd hpops).snoc (step_jump W hj L _ st.out), henv, rfl⟩
   | continue_ =>
     simp only [compS, Option.some.injEq, Prod.mk.injEq] at hc
     obtain ⟨rfl, rfl, rfl, rfl⟩ := hc
-    simp only [depthSafeS, beq_iff_eq] at hd
     simp only [evalS]
-    have hj := codeAt_head hcode
-    simp only [mapT, resolveT] at hj
-    exact ⟨hd, L, .single (step_jump W hj L T st.out), henv, rfl⟩
+    simp only [resolveAt_append] at hcode
+    have hpops := codeAt_append_left hcode
+    have hj := codeAt_head (codeAt_append_right hcode)
+    simp only [resolveAt_length, List.length_replicate, mapT, resolveT] at hj
+    exact ⟨L, (steps_pops W lc d pos L T st.out hd hpops).snoc (step_jump W hj L _ st.out), henv, rfl⟩
   | while_ c body =>
     have hc0 := hc
     have hd0 := hd
@@ -311,9 +305,8 @@ theorem simS_succ {W : World} {Pg : Prog} {n : Nat} (hE : SimE W Pg n) (hS : Sim
       · rename_i cb tb n2 heq2
         simp only [Option.some.injEq, Prod.mk.injEq] at hc
         obtain ⟨hcodeEq, rfl, rfl, rfl⟩ := hc
-        simp only [depthSafeS, Bool.and_eq_true] at hd
-        have hm1 := compE_mono c _ _ _ _ _ heq1
-        have hm2 := compSs_mono body _ _ _ _ _ _ heq2
+        have hm1 := compE_mono c _ _ _ _ _ _ heq1
+        have hm2 := compSs_mono body _ _ _ _ _ _ _ heq2
         have hlenc : code.length = cc.length + 1 + cb.length + 1 := by
           rw [← hcodeEq]; simp only [List.length_append, List.length_cons, List.length_nil, closeBody_length]
         rw [← hcodeEq] at hcode
@@ -336,7 +329,7 @@ theorem simS_succ {W : World} {Pg : Prog} {n : Nat} (hE : SimE W Pg n) (hS : Sim
         have e4 : pos + (cc.length + 1) + 0 = pos + cc.length + 1 := by omega
         have e5 : pos + (cc.length + 1) + cb.length + 1 = pos + code.length := by omega
         rw [e4, e5] at hbody
-        have ihc := hE c st Γ next cc .bool n1 lc d pos L T heq1 hd.1 hcc henv hwf (by omega)
+        have ihc := hE c st Γ next cc .bool n1 lc d pos L T heq1 hd hcc henv hwf (by omega)
         simp only [evalS]
         cases hrc : evalE n Pg st c with
         | ok vc s1 =>
@@ -357,7 +350,7 @@ theorem simS_succ {W : World} {Pg : Prog} {n : Nat} (hE : SimE W Pg n) (hS : Sim
               exact hst1.snoc hstep
             | true =>
               simp only [if_true] at hstep
-              have ihb := hSs body s1 Γ n1 false cb tb n2 (pos, pos + code.length) 0 (pos + cc.length + 1) L1 T heq2 hd.2
+              have ihb := hSs body s1 Γ n1 false cb tb n2 (pos, pos + code.length) 0 (pos + cc.length + 1) L1 T heq2 (Nat.zero_le _)
                 hbody henv1 (hwf.mono hm1) (by omega)
               have hbk : W.P[pos + cc.length + 1 + cb.length]? = some (.jump pos) := by
                 have e : pos + (cc.length + (0 + 1) + cb.length) = pos + cc.length + 1 + cb.length := by omega
@@ -384,13 +377,15 @@ theorem simS_succ {W : World} {Pg : Prog} {n : Nat} (hE : SimE W Pg n) (hS : Sim
                 rw [hrb] at ihb
                 cases g with
                 | brk =>
-                  obtain ⟨_, L2, hst2, ⟨henv2, _⟩, hl2⟩ := ihb
+                  obtain ⟨L2, hst2, ⟨henv2, _⟩, hl2⟩ := ihb
+                  simp only [dropPending_zero] at hst2
                   refine ⟨L2, ?_, by rw [St.popTo_env, ← hlen1]; exact henv2, by omega, fun _ => .unit⟩
                   dsimp only
                   rw [unit_res, List.append_nil]
                   exact (hst1.snoc hstep).trans hst2
                 | cont =>
-                  obtain ⟨_, L2, hst2, ⟨henv2, _⟩, hl2⟩ := ihb
+                  obtain ⟨L2, hst2, ⟨henv2, _⟩, hl2⟩ := ihb
+                  simp only [dropPending_zero] at hst2
                   exact again s2 L2 ((hst1.snoc hstep).trans hst2) henv2 hl2
                 | err k =>
                   obtain ⟨x1, x2, h1, h2, h3⟩ := ihb
